@@ -864,8 +864,12 @@ def run_tcp(case):
     if obs == ("return",) and does_read and not (does_write and wwritten < len(wexpected)):
         if info is None:
             # the model never saw a complete frame (EOF, stall or deadline came first)
-            probs.append(("short-message", "returned a message after reading %d of %d stream bytes "
-                          "(model: %s)" % (sock.rpos, len(full), oname(exp))))
+            if exp == ("raise", "Timeout"):
+                probs.append(("deadline-ignored", "returned a message although the deadline (%.1f s) "
+                              "expired at a wait before the stream was complete" % timeout))
+            else:
+                probs.append(("short-message", "returned a message after reading %d of %d stream bytes "
+                              "(model: %s)" % (sock.rpos, len(full), oname(exp))))
             direct = True
         else:
             if not info.well_formed(it):
